@@ -79,6 +79,14 @@ def run(pid, flt=None, quiet=False):
                                     tail=r.stdout.strip().split('\n')[-1][:300] if st != 'ok' else ''))
             finally:
                 shutil.rmtree(tmp, ignore_errors=True)
+                # generated files of the scratch run (build/<unit>_<hash>, build/kani/<unit>_<hash>)
+                import hashlib
+                tag = '_' + hashlib.sha1(tmp.encode()).hexdigest()[:8]
+                for base in (os.path.join(ROOT, 'build'), os.path.join(ROOT, 'build', 'kani')):
+                    if os.path.isdir(base):
+                        for dn in os.listdir(base):
+                            if dn.endswith(tag):
+                                shutil.rmtree(os.path.join(base, dn), ignore_errors=True)
             if not quiet:
                 print(json.dumps(results[-1]))
     return results
